@@ -301,3 +301,84 @@ pub open spec fn pvi_ok<CS: BbsCiphersuite>(u: int, gens_len: int, dm: Seq<Scala
     &&& gens_len == u + di.len() + 1
     &&& (api_id + CS::H2S@).len() <= 255
 }
+
+// ---- ProofInit / ProofFinalize / CoreProofGen as functions of the random scalars -------------------------
+/// random_scalars = (r1, r2, e~, r1~, r3~, m~_1 .. m~_U)
+pub open spec fn proof_init_spec<CS: BbsCiphersuite>(pk: G2Projective, sig: BBSplusSignature, p1: G1Projective, gens: Seq<G1Projective>,
+    rs: Seq<Scalar>, header: Seq<u8>, m: Seq<Scalar>, und: Seq<usize>, api_id: Seq<u8>) -> ProofInitResult {
+    let h = gens.subrange(1, gens.len() as int);
+    let domain = domain_spec::<CS>(pk, gens[0], h, header, api_id);
+    let b = b_spec(p1, gens[0], domain, h, m);
+    let d = pi_d(b, rs[1]);
+    let abar = pi_abar(sig.A, rs[0], rs[1]);
+    ProofInitResult {
+        Abar: abar,
+        Bbar: pi_bbar(d, rs[0], abar, sig.e),
+        D: d,
+        T1: pi_t1(abar, rs[2], d, rs[3]),
+        T2: pi_t2(d, rs[4], h, rs.subrange(5, 5 + und.len() as int), und),
+        domain: domain,
+    }
+}
+
+/// ProofFinalize: the responses.  und_m = the undisclosed message scalars in index order.
+pub open spec fn proof_finalize_rel(p: BBSplusPoKSignature, init: ProofInitResult, c: Scalar, e: Scalar, rs: Seq<Scalar>, und_m: Seq<Scalar>) -> bool {
+    &&& p.Abar == init.Abar && p.Bbar == init.Bbar && p.D == init.D
+    &&& p.e_cap == s_add(rs[2], s_mul(e, c))
+    &&& p.r1_cap == s_sub(rs[3], s_mul(rs[0], c))
+    &&& p.r3_cap == s_sub(rs[4], s_mul(s_inv(rs[1]), c))
+    &&& p.m_cap@.len() == und_m.len()
+    &&& forall|j: int| 0 <= j < und_m.len() ==> (#[trigger] p.m_cap@[j]) == s_add(rs[5 + j], s_mul(und_m[j], c))
+    &&& p.challenge == c
+}
+
+pub open spec fn select(m: Seq<Scalar>, idx: Seq<usize>) -> Seq<Scalar> {
+    Seq::new(idx.len(), |k: int| m[idx[k] as int])
+}
+
+/// CoreProofGen for ascending, duplicate-free disclosed indexes `di` (all < |m|), random scalars rs (|rs| = 5 + U)
+pub open spec fn core_proof_gen_rel<CS: BbsCiphersuite>(p: BBSplusPoKSignature, pk: G2Projective, sig: BBSplusSignature, p1: G1Projective, gens: Seq<G1Projective>,
+    m: Seq<Scalar>, di: Seq<usize>, header: Seq<u8>, ph: Seq<u8>, api_id: Seq<u8>, rs: Seq<Scalar>) -> bool {
+    let und = complement(m.len() as int, di);
+    let init = proof_init_spec::<CS>(pk, sig, p1, gens, rs, header, m, und, api_id);
+    let c = challenge_spec::<CS>(di, select(m, di), init.Abar, init.Bbar, init.D, init.T1, init.T2, init.domain, ph, api_id);
+    proof_finalize_rel(p, init, c, sig.e, rs, select(m, und))
+}
+
+pub open spec fn core_proof_gen_ok<CS: BbsCiphersuite>(gens_len: int, l: int, di: Seq<usize>, api_id: Seq<u8>) -> bool {
+    &&& gens_len == l + 1
+    &&& di.len() <= l
+    &&& forall|k: int| 0 <= k < di.len() ==> di[k] < l
+    &&& (api_id + CS::H2S@).len() <= 255
+}
+
+// ---- ProofGen / ProofVerify (3.5.3, 3.5.4) over octet strings --------------------------------------------
+pub open spec fn opt_idx(o: Option<&[usize]>) -> Seq<usize> {
+    match o { Some(s) => s@, None => Seq::empty() }
+}
+
+/// octets_to_signature as a function (meaningful when sig_decodes(b, sig_of_octets(b)))
+pub open spec fn sig_of_octets(b: Seq<u8>) -> BBSplusSignature {
+    BBSplusSignature { A: g1_dec(b.subrange(0, 48))->0, e: sc_dec(b.subrange(48, 80))->0 }
+}
+
+pub open spec fn sig_octets_valid(b: Seq<u8>) -> bool {
+    sig_decodes(b, sig_of_octets(b))
+}
+
+pub open spec fn proof_gen_ok<CS: BbsCiphersuite>(sig: Seq<u8>, l: int, di: Seq<usize>) -> bool {
+    &&& sig_octets_valid(sig)
+    &&& di.len() <= l
+    &&& forall|k: int| 0 <= k < di.len() ==> di[k] < l
+}
+
+pub open spec fn proof_gen_rel<CS: BbsCiphersuite>(p: BBSplusPoKSignature, pk: G2Projective, sig: Seq<u8>, header: Seq<u8>, ph: Seq<u8>,
+    msgs: Seq<Vec<u8>>, di: Seq<usize>, rs: Seq<Scalar>) -> bool {
+    core_proof_gen_rel::<CS>(p, pk, sig_of_octets(sig), p1_spec::<CS>(), generators_spec::<CS>((msgs.len() + 1) as nat, CS::API_ID@),
+        msgs_to_scalars_spec::<CS>(msgs, CS::API_ID@), di, header, ph, CS::API_ID@, rs)
+}
+
+pub open spec fn proof_verify_api_spec<CS: BbsCiphersuite>(pk: G2Projective, p: BBSplusPoKSignature, dmsgs: Seq<Vec<u8>>, di: Seq<usize>, header: Seq<u8>, ph: Seq<u8>) -> bool {
+    proof_verify_spec::<CS>(pk, p, p1_spec::<CS>(), generators_spec::<CS>((p.m_cap@.len() + di.len() + 1) as nat, CS::API_ID@), header, ph,
+        msgs_to_scalars_spec::<CS>(dmsgs, CS::API_ID@), di, CS::API_ID@)
+}
